@@ -859,6 +859,9 @@ hypothesis `cutWire = cut`), and the edns size constants are the model's. -/
 theorem branch_hypotheses_match_tree :
     SdnsVerif.Gen.C05.as112_zone_last_labels = ["arpa"] ∧
     (∀ t ∈ [6, 46, 47, 50], t ∈ SdnsVerif.Gen.C05.wire_recomposable_types) ∧
+    -- … and nothing the model does not know is copied verbatim (a type whose RDATA names the packer
+    -- compresses — PTR, NS, MX, SRV … — must stay on the decoded path)
+    SdnsVerif.Gen.C05.wire_recomposable_types = recomposableTypes ∧
     SdnsVerif.Gen.C05.minMsgSizeLib = MinMsgSize ∧ SdnsVerif.Gen.C05.maxMsgSizeLib = MaxMsgSize ∧
     SdnsVerif.Gen.C05.defaultMsgSize = DefaultMsgSize := by
   decide
